@@ -33,7 +33,9 @@ def outcome_raise():
 
 
 def outcome_timeout():
-    return st.fixed_dictionaries({"k": st.just("timeout"), "extra": st.sampled_from([0.001, 0.5, 5.0])})
+    # cleanup: the actor needs that long to unwind after the cancellation the execution timeout sends it
+    return st.fixed_dictionaries({"k": st.just("timeout"), "extra": st.sampled_from([0.001, 0.5, 5.0]),
+                                  "cleanup": st.sampled_from([0.0, 0.0, 0.0, 0.3])})
 
 
 def outcome_depfail():
